@@ -12,7 +12,7 @@ the re-read constraint gives the same verdict on every enumerated tree.
 from __future__ import annotations
 
 from mc import families
-from mc.common import Ctx, pmap, rotate
+from mc.common import Ctx, pmap, rotate, pmap_tagged
 from mc.fd import build
 from mc.refgrammar import Alt, Bit, Lit, NT, Opt, Plus, RefGrammar, Rep, Rx, Seq, Star, WordMatcher, enum_trees, snap_text, to_fan
 
@@ -294,8 +294,8 @@ def run(ctx: Ctx) -> None:
         n = len(c07.formulas(which, "quick"))
         citems += [(which, i) for i in range(0, n, 2 if ctx.quick else 1)]
     ctx.log(f"{len(gitems)} grammars, {len(citems)} constraints")
-    gres = pmap(work_grammar, gitems, chunk=8)
-    cres = pmap(work_constraint, citems, chunk=4)
+    gres = pmap_tagged(work_grammar, gitems, chunk=8)
+    cres = pmap_tagged(work_constraint, citems, chunk=4)
     gstat, cstat = {}, {}
     for r in gres:
         gstat[r["status"]] = gstat.get(r["status"], 0) + 1
